@@ -84,6 +84,9 @@ type Engine struct {
 	siteDeps  map[string][]int
 	closedDone map[string]bool
 	exposing  bool
+	wm        Term // watermark: every object that exists so far (including those allocated by earlier callees) is <= wm
+	wmCall    Term // watermark just before the call whose postcondition is being evaluated
+	wmN       int
 	curLockOwner *lockOwner
 	lockChecks bool
 	unclassified map[string]bool
@@ -588,13 +591,32 @@ func (e *Engine) outsideRef(reach Term, r Term) {
 	// numbering convention: objects existing at entry are <= alloc0, this activation's allocation sites
 	// are alloc0+1 .. alloc0+10^6, objects allocated by callees (or by earlier loop iterations) lie above.
 	e.declare("alloc0", SInt)
-	cs := []Term{Bin(SBool, "<=", r, Term{"alloc0", SInt}), T(SBool, "(> %s (+ alloc0 1000000))", r)}
+	cs := []Term{Bin(SBool, "<=", r, Term{"alloc0", SInt}), And(T(SBool, "(> %s (+ alloc0 1000000))", r), Bin(SBool, "<=", r, e.watermark()))}
 	for k := 1; k <= e.sites; k++ {
 		if e.reified[k] {
 			cs = append(cs, Eq(r, e.siteRef(k)))
 		}
 	}
 	e.assume(reach, Or(cs...))
+}
+
+// watermark: upper bound of every object reference that exists at the current point.
+func (e *Engine) watermark() Term {
+	if e.wm.S == "" {
+		e.declare("alloc0", SInt)
+		e.wm = T(SInt, "(+ alloc0 1000000)")
+	}
+	return e.wm
+}
+
+// bumpWatermark: a callee may have allocated objects; they lie above the old watermark and below the new one.
+func (e *Engine) bumpWatermark() (old Term) {
+	old = e.watermark()
+	e.wmN++
+	nw := e.declare(fmt.Sprintf("wm!%d", e.wmN), SInt)
+	e.assumes = append(e.assumes, Bin(SBool, ">", nw, old))
+	e.wm = nw
+	return old
 }
 
 // mergeStates joins states along edges with the given (mutually exclusive) conditions.
